@@ -32,6 +32,7 @@ type driver struct {
 	w       *bufio.Writer
 	steps   int
 	alien   int
+	dead    bool // the real heap has become cyclic (only a defect can do that): nothing recursive may be called any more
 	// slice headers of the built-in lists (hook VerifSpine), logged as deltas for spec/SliceTrace.tla
 	sw     *bufio.Writer
 	spine  map[int][3]int
@@ -605,6 +606,16 @@ func (d *driver) pickOp() (model.Op, bool) {
 		case c < 25:
 			return mk("Clone", r), true
 		case c < 26:
+			if d.rng.Intn(2) == 0 && n > 1 {
+				// a prefix by a take-while predicate, then a write into that prefix of the receiver
+				o := mk("FilterHead", r)
+				o.I = 1 + d.rng.Intn(n-1)
+				rep := mk("Replace", r)
+				rep.I = d.rng.Intn(o.I)
+				rep.V = d.scalar()
+				d.pending = &rep
+				return o, true
+			}
 			return mk([]string{"FilterAll", "MapId"}[d.rng.Intn(2)], r), true
 		default:
 			p := d.path("L")
@@ -781,7 +792,7 @@ func (d *driver) assign(o model.Op, panicked bool, ret any) model.Val {
 			d.bindNew(nx)
 			cur = nx
 		}
-	case "NewList", "NewListOf", "NewObject", "SubList", "Concat", "FilterAll", "MapId", "Keys", "Values", "Pluck", "MapIdO":
+	case "NewList", "NewListOf", "NewObject", "SubList", "Concat", "FilterAll", "FilterHead", "MapId", "Keys", "Values", "Pluck", "MapIdO":
 		d.bindNew(ret)
 	}
 	switch o.Op {
@@ -858,7 +869,39 @@ func (d *driver) affordable(o model.Op) bool {
 }
 
 // logStep writes one trace line; the heap is logged as a delta against the previous line
+// cyclic: does the projected heap contain a container that reaches itself?
+func (d *driver) cyclic() bool {
+	state := make([]int8, len(d.cur)) // 0 new, 1 on the stack, 2 done
+	var visit func(i int) bool
+	visit = func(i int) bool {
+		if state[i] == 1 {
+			return true
+		}
+		if state[i] == 2 {
+			return false
+		}
+		state[i] = 1
+		for _, v := range d.cur[i].E {
+			if v.K == "ref" && v.V >= 1 && v.V <= len(d.cur) && visit(v.V-1) {
+				return true
+			}
+		}
+		state[i] = 2
+		return false
+	}
+	for i := range d.cur {
+		if visit(i) {
+			return true
+		}
+	}
+	return false
+}
+
 func (d *driver) logStep(o model.Op, panicked bool, rv model.Val, prev model.Heap) {
+	if !d.dead && d.cyclic() {
+		// logged as it is (the specification's heaps are acyclic, so TLC rejects this event); the program ends here
+		d.dead = true
+	}
 	type ch [2]any
 	var changed []ch
 	for i, c := range d.cur {
@@ -886,6 +929,9 @@ func (d *driver) logStep(o model.Op, panicked bool, rv model.Val, prev model.Hea
 }
 
 func (d *driver) step() bool {
+	if d.dead {
+		return false
+	}
 	o, ok := d.pickOp()
 	if !ok {
 		return false
@@ -954,7 +1000,7 @@ func cmdDrive(args []string) int {
 		}
 		fmt.Fprintf(w, "{\"t\":\"reset\",\"nkeys\":%d,\"derived\":%d,\"cseed\":%d,\"gen\":%d}\n", *nkeys, *derived, *seed+int64(p), gen)
 		logged := func(o model.Op) {
-			if !d.real.Executable(o) || !d.affordable(o) {
+			if d.dead || !d.real.Executable(o) || !d.affordable(o) {
 				return
 			}
 			panicked, ret, _ := d.real.Exec(o)
@@ -1208,6 +1254,9 @@ func cmdDrive(args []string) int {
 			d := &driver{rng: rng, real: heapx.New(t, nil, *nkeys, *derived), nkeys: *nkeys, next: 1, big: true, maxList: 1 << 30, w: w}
 			fmt.Fprintf(w, "{\"t\":\"reset\",\"nkeys\":%d,\"derived\":%d,\"cseed\":%d,\"gen\":0}\n", *nkeys, *derived, *seed+int64(p))
 			logged := func(o model.Op) model.Val {
+				if d.dead {
+					return model.Val{K: "none"}
+				}
 				panicked, ret, _ := d.real.Exec(o)
 				rv := d.assign(o, panicked, ret)
 				prev := d.cur
